@@ -192,6 +192,28 @@ def run(cx):
               'with all_points the face passes when vertex 0 AND 1 AND 2 are near (early exit false), otherwise when vertex 0 OR 1 OR 2 is near (early exit true): each mode examines each of the three vertices once',
               where=b.file, found='; '.join(detail))
 
+    # ---------------------------------------------------------------- vertex_check: "nothing more to test" only when NO further tolerance was given
+    b = cx.fn('geom3::mesh::filtering::MeshNearCheck::vertex_check')
+    if b:
+        ins = b.calls('HashMap::insert')
+        okv = len(ins) == 1
+        n_pass = 0
+        if okv:
+            for dbb, dv, g in cx.alts(b, ins[0].data['args'][2], ins[0].bb, ins[0].idx):
+                if match('(agg *Option::Some (0 (agg *Option::None)))', dv) is not None:
+                    n_pass += 1
+                    has = lambda pat, pol: any(p == pol and match(pat, a) is not None for a, p in g)
+                    okv = okv and has('(is (field planar_tol (param self)) None)', True) and has('(is (field angle_tol (param self)) None)', True) and \
+                        has('(is (call *project_with_max_dist (field ref_mesh (param self)) _ (field distance_tol (param self))) Some)', True)
+        cx.ob('GUARD', 'vertex_check:no-further-test', okv and n_pass == 1,
+              'a vertex within distance passes without a planar or angle test only when BOTH planar_tol and angle_tol are None (with an angle tolerance alone the reference normal must still be handed back)',
+              where=b.file, found=f'{n_pass} such exits')
+    # ---------------------------------------------------------------- face_select: the starting selection is taken as given
+    b = cx.fn('geom3::mesh::Mesh::face_select')
+    if b:
+        cx.expect('EXPR', 'face_select:start', cx.retval(b),
+                  '(agg *TriangleFilter (mesh (param self)) (indices (call Iterator::collect (phi (call Vec::new) (call *index_vec (agg *Option::None) (len (call *Mesh::faces (param self)))) (field 0 (variant Indices (param start)))))))',
+                  'the filter starts from nothing, from every face index 0..faces.len(), or from exactly the indices given (none dropped)', where=b.file)
     # ---------------------------------------------------------------- create_from_indices
     b = cx.fn('geom3::mesh::Mesh::create_from_indices')
     if b:
